@@ -236,6 +236,13 @@ def main():
                 continue
             for q in ev["judged"]:
                 name = q["name"]
+                if name == "band_orientation":
+                    # self-referential item: the signed half-width must carry the sign of the multiplier
+                    hw = (fr(out[1]) - fr(out[2])) / 2
+                    summary["judged_items_rechecked"] += 1
+                    if (hw * (-1 if k < 0 else 1) != abs(hw)) and ev["online_ok"]:
+                        summary["verdict_disagreements"] += 1
+                    continue
                 if name not in refs:
                     summary["reference_disagreements"] += 1
                     summary["examples"].append({"kind": kind, "t": ev["t"], "item": name, "problem": "online judged an item the offline model has no value for"})
